@@ -179,7 +179,18 @@ func randomHistory(r *core.Rand, n int) []string {
 		}
 		return c[r.Intn(len(c))], true
 	}
+	// a quarter of the histories reach the log through the HTTP handlers as well
+	handlers := r.Chance(1, 4)
+	via := func() string {
+		if handlers && r.Chance(1, 2) {
+			return "h"
+		}
+		return ""
+	}
 	for i := 0; i < n; i++ {
+		if handlers && r.Chance(1, 25) {
+			ops = append(ops, "hrefused "+r.Pick("export", "reset", "param"))
+		}
 		x := r.Intn(tot)
 		switch {
 		case x < p.req:
@@ -215,17 +226,17 @@ func randomHistory(r *core.Rand, n int) []string {
 			}
 			ops = append(ops, "res "+id)
 		case x < p.req+p.res+p.export:
-			ops = append(ops, "export")
+			ops = append(ops, via()+"export")
 		case x < p.req+p.res+p.export+p.xreset:
 			for id, d := range done {
 				if d {
 					delete(done, id)
 				}
 			}
-			ops = append(ops, "xreset")
+			ops = append(ops, via()+"xreset")
 		case x < p.req+p.res+p.export+p.xreset+p.reset:
 			done = map[string]bool{}
-			ops = append(ops, "reset")
+			ops = append(ops, via()+"reset")
 		default:
 			ops = append(ops, randOptOp(r))
 		}
